@@ -1,14 +1,20 @@
 #!/bin/sh
-# For every "fix:" commit in /repo write the reverse patch as a mutant: <props>-revert-<hash>.patch
-# usage: selftest/mkreverts.sh   (property ids are taken from known_findings.json)
+# For every "fix:" commit in /repo write the reverse patch as a sensitivity mutant, one per property it was a finding of:
+#   selftest/mutants/<prop>-revert-<hash>.patch   (property ids come from known_findings.json)
+# Reverse patches that no longer apply to HEAD (a later fix rewrote the same lines) are skipped; names listed in
+# selftest/mutants/SKIP are not generated (with the reason given there).
 cd "$(dirname "$0")/.."
 for c in $(git -C /repo log --format=%h --grep '^fix:' ); do
   props=$(/venv/bin/python -c "
 import json
 k=json.load(open('known_findings.json'))
-print('+'.join(sorted(set(e['property'].lower() for e in k if e.get('commit','').startswith('$c') or '$c'.startswith(e.get('commit','xxxxxxx'))))))")
-  [ -z "$props" ] && props=unknown
-  first=$(echo $props | cut -d+ -f1)
-  git -C /repo diff "$c" "$c^" > "selftest/mutants/$first-revert-$c.patch"
-  echo "$first-revert-$c.patch  (properties: $props)"
+print(' '.join(sorted(set(e['property'].lower() for e in k if e.get('commit','').startswith('$c') or '$c'.startswith(e.get('commit','xxxxxxx'))))))")
+  git -C /repo diff "$c" "$c^" > /tmp/verif-revert-$c.patch
+  if ! git -C /repo apply --check /tmp/verif-revert-$c.patch 2>/dev/null; then echo "revert of $c does not apply to HEAD: skipped"; rm -f selftest/mutants/*-revert-$c.patch /tmp/verif-revert-$c.patch; continue; fi
+  for p in $props; do
+    name="$p-revert-$c"
+    if grep -q "^$name:" selftest/mutants/SKIP 2>/dev/null; then rm -f "selftest/mutants/$name.patch"; continue; fi
+    cp /tmp/verif-revert-$c.patch "selftest/mutants/$name.patch"; echo "$name.patch"
+  done
+  rm -f /tmp/verif-revert-$c.patch
 done
